@@ -279,6 +279,20 @@ class _:
     modifies = ["@self._unaccepted_mark", "@self._current_char_index", "@self._current_line", "ghost:cur:int", "ghost:fe:arr", "ghost:fr:arr", "ghost:fks:arr"]
 
 
+# ---- raw texts as regions of the text ---------------------------------------------------------------------------
+
+@rec(args={"v": "any", "text": "str", "a": "int", "b": "int"}, ret="bool", opaque=True)
+def raw_is_region(v, text, a, b):
+    """the (dynamic) raw value v is the piece text[a:b] of the text, 0 <= a <= b <= len(text) (opaque: split() passes
+    this fact from the handlers to its tiling invariant without ever looking at the characters)"""
+    return isstr(v) and 0 <= a <= b <= len(text) and sval(v) == cut(text, a, b)
+
+
+lemma("slice-is-region", doc="a Python slice within the bounds of the text is that region of the text",
+      vars={"text": "str", "a": "int", "b": "int"}, requires=["0 <= a <= b <= len(text)"],
+      ensures="raw_is_region(text[a:b], text, a, b)", reveals=["raw_is_region"], props=("C03",))
+
+
 # ---- block handlers ---------------------------------------------------------------------------------------------
 # each is entered right after split() consumed the '@type' mark a = CUR() - 1; by A-RE (R4) the next mark is the
 # '{' that directly follows it, so the "regex mismatch" branches are dead code: proved by the `raises` clauses.
@@ -310,9 +324,11 @@ class _:
     """@comment{...}: the block ends at the '}' matching the opening '{'; raw is the text from the '@' to that '}'
     inclusive, the comment the stripped text between the braces, the line that of the '@'"""
     uses_marks = True
+    reveals = ["raw_is_region"]
     sorts = {"self": "ref:Splitter", "result": "ref:ExplicitComment"}
     requires = {"at-block-start": "at_block_start(self)"}
     ensures = {
+        "C03.raw-region": "raw_is_region(result._raw, self.bibstr, ms(old(CUR()) - 1), self._current_char_index + 1)",
         "C02.comment-block": "fresh(result) and exists(r, 0 <= r < NMARKS(), closed_at(old(CUR()) - 1, r) and CUR() == r + 1 and self._current_char_index == ms(r) and isstr(result._raw) and sval(result._raw) == self.bibstr[ms(old(CUR()) - 1):ms(r) + 1] and result._comment == self.bibstr[me(old(CUR())):ms(r)].strip())",
         "C03.start-line": "isint(result._start_line_in_file) and ival(result._start_line_in_file) == nls(0, old(CUR()) - 1) - 1",
         "C04.scan": "scan(self) and midx(self._unaccepted_mark) == -1",
@@ -325,9 +341,11 @@ class _:
 class _:
     """@preamble{...}: as for @comment; the value is the text between the braces, verbatim"""
     uses_marks = True
+    reveals = ["raw_is_region"]
     sorts = {"self": "ref:Splitter", "result": "ref:Preamble"}
     requires = {"at-block-start": "at_block_start(self)"}
     ensures = {
+        "C03.raw-region": "raw_is_region(result._raw, self.bibstr, ms(old(CUR()) - 1), self._current_char_index + 1)",
         "C02.preamble-block": "fresh(result) and exists(r, 0 <= r < NMARKS(), closed_at(old(CUR()) - 1, r) and CUR() == r + 1 and self._current_char_index == ms(r) and isstr(result._raw) and sval(result._raw) == self.bibstr[ms(old(CUR()) - 1):ms(r) + 1] and result._value == self.bibstr[me(old(CUR())):ms(r)])",
         "C03.start-line": "isint(result._start_line_in_file) and ival(result._start_line_in_file) == nls(0, old(CUR()) - 1) - 1",
         "C04.scan": "scan(self) and midx(self._unaccepted_mark) == -1",
@@ -341,9 +359,11 @@ class _:
     """@string{key = value}: the mark after '{' must be '='; the key is the stripped text between them, the value the
     stripped text from the '=' to the '}' matching the opening '{'"""
     uses_marks = True
+    reveals = ["raw_is_region"]
     sorts = {"self": "ref:Splitter", "m": "match", "result": "ref:String"}
     requires = {"at-block-start": "at_block_start(self)", "m": "midx(m) == CUR() - 1"}
     ensures = {
+        "C03.raw-region": "raw_is_region(result._raw, self.bibstr, ms(old(CUR()) - 1), self._current_char_index + 1)",
         "C02.string-block": "fresh(result) and exists(e, old(CUR()) < e < NMARKS(), mk(e) == 5 and only_newlines(old(CUR()) + 1, e) and exists(r, e < r < NMARKS(), mk(r) == 2 and bal(e + 1, r) == 0 and no_close_before(e + 1, r) and no_block_start(old(CUR()), r) and CUR() == r + 1 and self._current_char_index == ms(r) and isstr(result._raw) and sval(result._raw) == self.bibstr[ms(old(CUR()) - 1):ms(r) + 1] and result._key == self.bibstr[me(old(CUR()) - 1) + 1:ms(e)].strip() and isstr(result._value) and sval(result._value) == self.bibstr[me(e):ms(r)].strip()))",
         "C03.start-line": "isint(result._start_line_in_file) and ival(result._start_line_in_file) == nls(0, old(CUR()) - 1) - 1",
         "C04.scan": "scan(self) and midx(self._unaccepted_mark) == -1",
@@ -373,10 +393,12 @@ class _:
     """@type{key, field = value, ...}: an Entry (wrapped in a DuplicateFieldKeyBlock that exposes it when a field key
     occurs twice); a mark other than ',' or '}' after the key aborts the block there"""
     uses_marks = True
+    reveals = ["raw_is_region"]
     sorts = {"self": "ref:Splitter", "m": "match", "m_val": "str", "result": "ref:Block"}
     requires = {"at-block-start": "at_block_start(self)", "m": "midx(m) == CUR() - 1", "m_val": "len(m_val) >= 1"}
     ghost_code = [("comma_mark = self._next_mark(", [("ec", None, "midx(comma_mark)")])]
     ensures = {
+        "C03.raw-region": "raw_is_region(result._raw, self.bibstr, ms(old(CUR()) - 1), self._current_char_index + 1)",
         "C02.entry": "implies(cls_is(result, 'Entry'), entry_read(as_ref(result, 'ref:Entry'), self, old(CUR()) - 1, m_val, ghost('ec')))",
         "C09.duplicates-flagged": "implies(cls_is(result, 'Entry'), forall((i, j), 0 <= i < j < len(as_ref(result, 'ref:Entry')._fields), as_ref(result, 'ref:Entry')._fields[i]._key != as_ref(result, 'ref:Entry')._fields[j]._key))",
         "C09.duplicate-fields-wrapper": "implies(not cls_is(result, 'Entry'), cls_is(result, 'DuplicateFieldKeyBlock') and fresh(result) and not isnone(as_ref(result, 'ref:DuplicateFieldKeyBlock')._ignore_error_block) and cls_is(as_ref(as_ref(result, 'ref:DuplicateFieldKeyBlock')._ignore_error_block, 'ref:Block'), 'Entry') and entry_read(as_ref(as_ref(result, 'ref:DuplicateFieldKeyBlock')._ignore_error_block, 'ref:Entry'), self, old(CUR()) - 1, m_val, ghost('ec')) and same(result._raw, as_ref(as_ref(result, 'ref:DuplicateFieldKeyBlock')._ignore_error_block, 'ref:Entry')._raw) and same(result._start_line_in_file, as_ref(as_ref(result, 'ref:DuplicateFieldKeyBlock')._ignore_error_block, 'ref:Entry')._start_line_in_file))",
@@ -440,25 +462,61 @@ def comment_start_ok(self):
                 and implies(midx(self._unaccepted_mark) >= 0, ival(self._implicit_comment_start) <= ms(midx(self._unaccepted_mark)))))
 
 
+@pred
+def region_raw(self, k):
+    """region k (a block) is the raw text of the block recorded for it"""
+    return raw_is_region(as_ref(ghost('gb', k), 'ref:Block')._raw, self.bibstr, ghost('gs', k), ghost('ge', k))
+
+
+@pred
+def regions_tile(n):
+    """the regions 0 .. n-1 are consecutive pieces of the text starting at its beginning"""
+    return (n >= 0 and forall(i, 0 <= i < n, 0 <= ghost('gs', i) <= ghost('ge', i) <= BLEN())
+            and forall(i, 0 <= i < n - 1, ghost('ge', i) == ghost('gs', i + 1))
+            and implies(n > 0, ghost('gs', 0) == 0))
+
+
 @contract(S + "split")
 class _:
     """never raises and terminates (C01): every BlockAbortedException becomes a ParsingFailedBlock, the parser-state
     and regex-mismatch branches are dead under A-RE, Library.add is called without fail_on_duplicate_key; the marks
     are consumed strictly left to right and a handed-back '@' mark is the next block start (C04); the library given
-    is the library returned and stays well formed (C08)"""
+    is the library returned and stays well formed (C08).
+
+    Tiling (C03): ghost code records one *region* of the text per step -- the free text handed to
+    _end_implicit_comment (kind 0) and the raw text of the block or failed block added to the library (kind 1, with
+    the block).  The regions are consecutive, start at 0 and end at the end of the text, and the raw of every block
+    region is exactly that piece of the text: no character is in two regions or in none.  (What
+    _end_implicit_comment does inside a free-text region -- strip surrounding whitespace -- is its own, assumed,
+    contract.)"""
     uses_marks = True
+    reveals = ["raw_is_region"]      # opened only for the failed block, whose raw text split() slices itself
     sorts = {"self": "ref:Splitter", "library": "optref:ref:Library", "result": "ref:Library"}
     requires = {"fresh-splitter": "midx(self._unaccepted_mark) == -1 and self._current_line == -1 and len(self.bibstr) == BLEN() and isint(self._implicit_comment_start) and ival(self._implicit_comment_start) == 0 and self._implicit_comment_start_line == -1",
                 "library": "implies(not isnone(library), WF(library))"}
     locals = {"library": "ref:Library"}
+    ghost_code = [
+        ("self._markiter = re.finditer(", [("gk", None, "0")]),
+        ("implicit_comment = self._end_implicit_comment(m.start())",
+         [("gs", "ghost('gk')", "ival(self._implicit_comment_start)"), ("ge", "ghost('gk')", "ms(midx(m))"), ("gkind", "ghost('gk')", "0"), ("gk", None, "ghost('gk') + 1")]),
+        ("self._reset_block_status(current_char_index=next_block_start)",
+         [("gs", "ghost('gk')", "ms(midx(m))"), ("ge", "ghost('gk')", "ival(next_block_start)"), ("gkind", "ghost('gk')", "1"),
+          ("gb", "ghost('gk')", "ref_id(library._blocks[len(library._blocks) - 1])"), ("gk", None, "ghost('gk') + 1")]),
+        ("comment = self._end_implicit_comment(len(self.bibstr))",
+         [("gs", "ghost('gk')", "ival(self._implicit_comment_start)"), ("ge", "ghost('gk')", "BLEN()"), ("gkind", "ghost('gk')", "0"), ("gk", None, "ghost('gk') + 1")]),
+    ]
     loops = {1: {"invariant": {
         "scan": "scan(self) and not isnone(self._markiter)",
         "library": "allocated(library) and allocated(library._blocks) and allocated(library._entries_by_key) and allocated(library._strings_by_key) and WF(library) and implies(not isnone(old(library)), same(library, old(library)))",
-        "comment-start": "comment_start_ok(self)",
-    }, "decreases": "2 * (NMARKS() - CUR()) + (1 if midx(self._unaccepted_mark) >= 0 else 0)", "props": ("C01", "C04", "C08")}}
+        "comment-start": "comment_start_ok(self) and isint(self._implicit_comment_start)",
+        "tiling": "regions_tile(ghost('gk')) and ival(self._implicit_comment_start) == (ghost('ge', ghost('gk') - 1) if ghost('gk') > 0 else 0)",
+        "tiling-raw": "forall(k, 0 <= k < ghost('gk'), implies(ghost('gkind', k) == 1, allocated(as_ref(ghost('gb', k), 'ref:Block')) and ghost('gb', k) > 0 and region_raw(self, k)))",
+    }, "decreases": "2 * (NMARKS() - CUR()) + (1 if midx(self._unaccepted_mark) >= 0 else 0)", "props": ("C01", "C03", "C04", "C08")}}
     ensures = {
         "C01.returns-library": "WF(result) and implies(not isnone(library), same(result, library)) and implies(isnone(library), fresh(result))",
         "C04.all-consumed": "CUR() == NMARKS() and midx(self._unaccepted_mark) == -1",
+        "C03.regions-tile-the-text": "regions_tile(ghost('gk')) and ghost('gk') > 0 and ghost('ge', ghost('gk') - 1) == BLEN()",
+        "C03.block-regions-are-raw": "forall(k, 0 <= k < ghost('gk'), implies(ghost('gkind', k) == 1, region_raw(self, k)))",
     }
     raises = {}
     modifies = ["*"]
